@@ -1,5 +1,6 @@
 import BarterModel.Lemmas.Risk
 import BarterModel.Model.Engine
+import BarterModel.Lemmas.KernelsAgree.RiskSM
 /-!
 # C03R — risk-check utilities and default risk manager (sub-check of C03)
 
@@ -537,5 +538,22 @@ example : ¬ Conserves [1, 2] ([] : List Nat)
   intro h; have := h.1 2; simp [RiskApproved.intoItem] at this
 
 example : (DefaultRiskManager.check (ρ := String) () [1, 1, 2] [7]).items = ([1, 1, 2], [7], [], []) := rfl
+
+/-- **Tie to the source by translation.** `RiskApproved::{new, into_item}`, `RiskRefused::into_item`,
+`CheckHigherThan::{new, check}` and `calculate_quote_notional` / `calculate_abs_percent_difference` /
+`calculate_delta` (with the four structs) are regenerated from the current `barter/src/risk/mod.rs`,
+`barter/src/risk/check/{mod,util}.rs` by `tools/rust2lean_sm.py` on every run
+(`Generated/Machines2.lean`, group `risk`) and equal the model's definitions the theorems above are
+about, for all arguments: the wrappers through the evident bijections; `check` for every checked type
+and EVERY `PartialOrd` implementation (the record parameter `T_ord` of the generated definition, whose
+field `le` is the model's `le`); the three
+arithmetic helpers at `fits = noOverflow` (the translator's `checked_mul` / `checked_sub` never
+overflow) and, for every `fits`, with the same value whenever the model returns one.
+`RiskRefused::new`, `Unrecoverable for RiskRefused` and `DefaultRiskManager::check` are outside the
+translated subset. The statement is that of `KernelsAgree.RiskSM.risk_sm_agree`
+(Lemmas/KernelsAgree/RiskSM.lean). -/
+theorem kernels_agree_with_source :
+    type_of% BarterModel.KernelsAgree.RiskSM.risk_sm_agree :=
+  BarterModel.KernelsAgree.RiskSM.risk_sm_agree
 
 end BarterModel.Props.C03R
